@@ -3,7 +3,7 @@
    under each.  Rows are abstract (`f i` = what vi_drawrow draws for absolute row i); the terminal
    primitives are the list operations of the emulator (TermEmu.v) that interprets the real stream. *)
 From Coq Require Import List Arith ZArith Bool.
-From NV Require Import Bytes TermEmu DrawDefs DrawProps.
+From NV Require Import Bytes TermEmu DrawDefs DrawProps DrawPutDefs DrawPutProps.
 Import ListNotations.
 
 (* emulator lemmas of the scroll algebra: delete / insert line in the text region [0,h) of a
@@ -111,6 +111,48 @@ Theorem C19_site_put_lines : forall (R : Type) (blank : R) (line : Type) (img : 
 Proof. exact site_put_lines. Qed.
 Print Assumptions C19_site_put_lines.
 
+(* ---- vc_put with its count, from the bytes.  DrawPutDefs.v mirrors what vc_put computes: the text handed to lbuf_edit
+   (character-wise: pref ++ register * count ++ post, the two parts of the cursor line around the put position; line-wise:
+   register * count), the lines lbuf_replace cuts it into (text_lines) and the vi_drawfix arguments -- lncnt = linecount(text) - 1
+   resp. linecount(text) with vi.c's linecount = newlines + 1, counted on the text that was PUT, not on the register.
+   Character-wise, any register (with or without newlines), any count, any split of the cursor line whose rest keeps the
+   line's newline: the call leaves the window of the buffer in which line xrow is replaced by the lines of the text *)
+Theorem C19_site_put_chars_count : forall (R : Type) (blank : R) (img : option (list N) -> R) (buf : list (list N)) W h xrow
+    (pref post' reg : list N) cnt,
+  W <= xrow < W + h -> xrow < length buf ->
+  let c := vc_put_chars xrow pref (post' ++ [10%N]) reg cnt in
+  let buf' := splice (list N) buf (p_beg c) (p_end c) (text_lines (p_text c)) in
+  put_screen R blank (fimg R (list N) img buf') W h c (win R (fimg R (list N) img buf) W h) = win R (fimg R (list N) img buf') W h.
+Proof. exact site_put_chars_count. Qed.
+Print Assumptions C19_site_put_chars_count.
+(* the splice it describes: one line replaced by count * (newlines in the register) + 1 lines, and that is the n of the call *)
+Theorem C19_put_chars_linecount : forall xrow (pref post' reg : list N) cnt,
+  count_nl pref = 0 -> count_nl post' = 0 ->
+  let c := vc_put_chars xrow pref (post' ++ [10%N]) reg cnt in
+  length (text_lines (p_text c)) = cnt * count_nl reg + 1 /\ p_n c = Z.of_nat (cnt * count_nl reg + 1).
+Proof. exact put_chars_linecount. Qed.
+Print Assumptions C19_put_chars_linecount.
+(* line-wise (the register ends with a newline), any count >= 1, also on the row just below the window and after the last line *)
+Theorem C19_site_put_lines_count : forall (R : Type) (blank : R) (img : option (list N) -> R) (buf : list (list N)) W h xrow
+    (reg' : list N) cnt,
+  1 <= h -> W <= xrow <= W + h -> xrow <= length buf -> 1 <= cnt ->
+  let c := vc_put_lines xrow (reg' ++ [10%N]) cnt in
+  let buf' := splice (list N) buf (p_beg c) (p_end c) (text_lines (p_text c)) in
+  length (text_lines (p_text c)) = cnt * S (count_nl reg') /\
+  put_screen R blank (fimg R (list N) img buf') W h c (win R (fimg R (list N) img buf) W h) = win R (fimg R (list N) img buf') W h.
+Proof. exact site_put_lines_count. Qed.
+Print Assumptions C19_site_put_lines_count.
+(* the count is needed: with the row count taken from the register alone (linecount(buf), a "count the register once" rewrite
+   of vc_put) the same call damages a correct screen, while the modelled call repaints it *)
+Theorem C19_put_count_needed : exists (buf : list (list N)) (pref post reg : list N) cnt W h xrow,
+  W <= xrow < W + h /\ xrow < length buf /\
+  let c := vc_put_chars xrow pref post reg cnt in
+  let f := fimg (option (list N)) (list N) (fun o => o) (splice (list N) buf (p_beg c) (p_end c) (text_lines (p_text c))) in
+  put_screen _ None f W h c (win _ (fimg _ (list N) (fun o => o) buf) W h) = win _ f W h /\
+  drawfix _ None f W h (p_r1 c) (p_r2 c) (Z.of_nat (vi_linecount reg)) (win _ (fimg _ (list N) (fun o => o) buf) W h) <> win _ f W h.
+Proof. exact put_count_needed. Qed.
+Print Assumptions C19_put_count_needed.
+
 (* ---- insert mode.  vi_nextline (first thing in `o`, and after every typed newline): the screen that showed the window shows the
    window with an empty line opened after the cursor line, which is the new cursor line and stays inside the window *)
 Theorem C19_nextline_opens_line : forall (R : Type) (blank : R) (g : nat -> R) h xtop xrow, 1 <= h -> xtop <= xrow < xtop + h ->
@@ -176,3 +218,12 @@ Example C19_nonvacuous :
     = [0; 77; 3] /\
   drawupdate nat 99 (fun i => i) 3 0 1 (win nat (fun i => i) 0 3) = [1; 2; 3].
 Proof. split; [left; split; [split; repeat constructor|left; repeat constructor]|split; vm_compute; reflexivity]. Qed.
+
+(* vc_put: `ll y/e 3<CR>` on "line 1 / line 2 / line 3" yanks "ne 1\nline 2\nlin"; 2p after the `l` of "line 6" makes five lines
+   of it and the call is vi_drawfix(5, 5, 5, 0) *)
+Example C19_nonvacuous_put :
+  let reg := [110; 101; 32; 49; 10; 108; 105; 110; 101; 32; 50; 10; 108; 105; 110]%N in
+  let c := vc_put_chars 5 [108; 105; 110]%N ([101; 32; 54] ++ [10])%N reg 2 in
+  count_nl reg = 2 /\ length (text_lines (p_text c)) = 5 /\ (p_r1 c, p_r2 c, p_n c) = (5, 5, 5)%Z /\
+  nth 1 (text_lines (p_text c)) [] = [108; 105; 110; 101; 32; 50]%N.
+Proof. vm_compute. repeat split; reflexivity. Qed.
